@@ -3,9 +3,11 @@
 Operation syntax (one word per operation, a history is `;`-joined) - the same as
 TexSoupModel/ArgsDriver.lean:
 
-    item ::= <str> | g:<str> | g@<pos>:<str> | c:<str> | n:<str> | x:<str>
+    item ::= <str> | g:<str> | g@<pos>:<str> | c:<str> | n:<str> | x:<str> | h<k>
              unparsed str | TexGroup.parse(str) [with .position = pos] | TexCmd(str)
-             | TexNamedEnv(str) | TexText(str)
+             | TexNamedEnv(str) | TexText(str)          - a fresh object at every occurrence
+             | h<k>: the SAME object at every occurrence in one history
+               (h2 = one BracketGroup('b'), every other h<k> = one BraceGroup('a'))
     op   ::= a:<item> | e:<item>,.. | i:<int>:<item> | r:<item> | p:<int> | p | v | c
              | g:<int> | s:<lo>:<hi> | t          (bounds: int or `_`)
 
@@ -24,9 +26,16 @@ from common import enc, dec, canon_expr         # noqa: E402
 
 # ----------------------------------------------------------------------------- items and ops
 
-def _mk_item(word):
-    """The Python value an item word denotes (fresh object every time)."""
+def _mk_item(word, shared=None):
+    """The Python value an item word denotes: a fresh object every time, except `h<k>`, which
+    is one object per history (kept in the dict `shared`)."""
     from TexSoup import data as D
+    if word[:1] == 'h':
+        shared = {} if shared is None else shared
+        if word not in shared:
+            int(word[1:])
+            shared[word] = D.BracketGroup('b') if word == 'h2' else D.BraceGroup('a')
+        return shared[word]
     parts = word.split(':')
     if len(parts) == 1:
         return dec(parts[0])
@@ -63,23 +72,25 @@ def _state(lst, all_=None):
 ERRS = (TypeError, ValueError, IndexError)
 
 
-def _apply(target, op, slice_state):
-    """Run one operation word on `target` (TexArgs or RefList); canonical output."""
+def _apply(target, op, slice_state, shared=None):
+    """Run one operation word on `target` (TexArgs or RefList); canonical output.
+    `shared` holds the `h<k>` objects of the history."""
     k, _, rest = op.partition(':')
+    _mk = lambda w: _mk_item(w, shared)      # noqa: E731
     try:
         if k == 'a':
-            target.append(_mk_item(rest))
+            target.append(_mk(rest))
             return 'none'
         if k == 'e':
-            items = [_mk_item(w) for w in rest.split(',')] if rest else []
+            items = [_mk(w) for w in rest.split(',')] if rest else []
             target.extend(items)
             return 'none'
         if k == 'i':
             i, _, it = rest.partition(':')
-            target.insert(int(i), _mk_item(it))
+            target.insert(int(i), _mk(it))
             return 'none'
         if k == 'r':
-            target.remove(_mk_item(rest))
+            target.remove(_mk(rest))
             return 'none'
         if k == 'p':
             r = target.pop(int(rest)) if rest else target.pop()
@@ -123,8 +134,9 @@ def impl_run(ops):
         return _state(r, r.all)
 
     res = []
+    shared = {}
     for op in ops:
-        out = _apply(args, op, slice_state)
+        out = _apply(args, op, slice_state, shared)
         line = out + ' @ ' + _state(args, args.all)
         if str(owner) != '\\o' + ''.join(str(x) for x in list.__iter__(args)):
             line += ' OWNER-MISMATCH'
@@ -200,8 +212,9 @@ def ref_run(ops, ref=None):
     common.impl()
     ref = RefList() if ref is None else ref
     res = []
+    shared = {}
     for op in ops:
-        out = _apply(ref, op, lambda r: _state(r))
+        out = _apply(ref, op, lambda r: _state(r), shared)
         res.append(out + ' @ ' + _state(ref.l))
     return ';'.join(res)
 
@@ -280,7 +293,7 @@ RANDOM_ITEMS = [enc(s) for s in ('{a}', '{a}', '[b]', '{}', '[]', '[a]', '{[b]}'
                                  '{x]', '[', '}', '[x]{y}', 'a', ' {a}', '{a} ', '[]]', '\\c')] + \
                ['g:' + enc('{a}'), 'g@3:' + enc('{a}'), 'g@7:' + enc('{a}'), 'g:' + enc('[b]'),
                 'g@5:' + enc('[]'), 'c:' + enc('c'), 'c:' + enc('a'), 'n:' + enc('e'),
-                'x:' + enc('{a}'), 'x:' + enc(' '), 'x:' + enc('q')]
+                'x:' + enc('{a}'), 'x:' + enc(' '), 'x:' + enc('q'), 'h0', 'h0', 'h1', 'h2']
 
 
 def random_history(rng, maxlen):
